@@ -372,6 +372,12 @@ def lem_exp(u, which='exp10'):
             e, c = int(c), Fraction(1)
         elif c < 0:
             e, c = -1, -c
+        # exp(log(x)) = x
+        if c == 1 and len(k) == 1 and k[0][1] == 1:
+            at = REG[k[0][0]]
+            if at.kind == 'fn' and at.name == _EXPLOG[which][0] and isinstance(at.args[0], Rat):
+                res = res * at.args[0].pow(e)
+                continue
         res = res * fn(which, Rat(Poly({k: c}))).pow(e)
     return res
 
